@@ -79,3 +79,55 @@ def _() -> "Any":
     use_profile("wildcards")
     requires("constants", VarianceConstants(0))
     local(variance="Variance", cls_type="Type", t_param="TypeParameter")
+
+
+# ---------------------------------------------------------------- J3 / J4 at the generator's decision points
+# (the copies made by substitution / instantiation / TypeUpdater are bounded only: DESIGN 10.3 C17)
+@external("src.utils.random.bool/1")
+def _(prob: "Int") -> "Bool":
+    """RandomUtils.bool(prob) is `random() < prob` with random() in [0, 1): never True for prob == 0"""
+    ensures("never-at-zero", implies(prob == 0, not result))
+
+
+@external("src.utils.random.bool/0")
+def _() -> "Bool":
+    pass
+
+
+load_module("src.generators.generator")
+fields("Generator", language="Str")
+
+
+@contract("src.generators.generator.Generator.gen_type_params")
+def _(self: "Generator", count: "Any", with_variance: "Bool", blacklist: "Any", for_function: "Any") -> "Seq[TypeParameter]":
+    use_profile("wildcards")
+    requires("constants", VarianceConstants(0))
+    site("TypeParameter", "J3-decision", implies(cfg.prob.bounded_type_parameters == 0, new.bound is None))
+    # declaration-site variance only when the caller asks for it
+    site("TypeParameter", "J5-J6-variance-only-on-request", implies(not with_variance, new.variance.value == 0))
+
+
+@contract("src.generators.generator.Generator.gen_func_decl")
+def _(self: "Generator", etype: "Any", not_void: "Any", class_is_final: "Any", func_name: "Any", params: "Any", abstract: "Any",
+      is_interface: "Any", type_params: "Opt[Seq[TypeParameter]]", namespace: "Any") -> "Any":
+    use_profile("wildcards")
+    local(type_params="Opt[Seq[TypeParameter]]")
+    # when the caller leaves the choice to the generator, a disabled switch means: no type parameters
+    site_call("_remove_unused_type_params", "J4-decision", implies(
+        cfg.prob.parameterized_functions == 0 and old(type_params) is None, arg0 is not None and len(cast(arg0, "Seq[TypeParameter]")) == 0))
+    # type parameters of functions are never variant
+    site_call("gen_type_params", "J6-decision", kw_with_variance is False)
+
+
+@contract("src.generators.generator.Generator.gen_class_decl")
+def _(self: "Generator", field_type: "Any", fret_type: "Any", not_void: "Any", type_params: "Any", class_name: "Any",
+      signature: "Any") -> "Any":
+    use_profile("wildcards")
+    # declaration-site variance only in the languages that have it
+    site_call("gen_type_params", "J5-decision", implies(kw_with_variance, self.language == 'kotlin' or self.language == 'scala'))
+
+
+@contract("src.generators.generator.Generator._create_type_params_from_etype")
+def _(self: "Generator", etype: "Any") -> "Any":
+    use_profile("wildcards")
+    site_call("gen_type_params", "J5-decision", implies(kw_with_variance, self.language == 'kotlin' or self.language == 'scala'))
